@@ -57,12 +57,19 @@ func c11Headers(n int, tier string, rng *Rng) []string {
 		"bytes=010-017", "bytes=0-010", "bytes=08-", "bytes=0x0-", "bytes=0b1-", "bytes=0o1-3", "bytes=1-0x3", "bytes=1-1_0", "bytes=-1e1", "bytes=1e0-"} {
 		add(s)
 	}
+	// the unit is a prefix, once: whatever follows "bytes=" is the range spec, also when it looks like
+	// (part of) the unit again
+	for _, junk := range []string{"=", "==", "b", "y", "t", "e", "s", "bytes=", "bytes", "byte", "tes=", "=bytes=", "sb=", "yes"} {
+		for _, spec := range []string{"1-2", "-3", "2-", "0-0"} {
+			add("bytes=" + junk + spec)
+		}
+	}
 	// seeded random from a small grammar
 	cnt := 40
 	if tier == "thorough" {
 		cnt = 400
 	}
-	toks := []string{"0", "1", "2", strconv.Itoa(n), strconv.Itoa(n - 1), strconv.Itoa(n + 1), "-", "-", " ", ",", "+", "9223372036854775807", "9", "\t", "x", ""}
+	toks := []string{"0", "1", "2", strconv.Itoa(n), strconv.Itoa(n - 1), strconv.Itoa(n + 1), "-", "-", " ", ",", "+", "9223372036854775807", "9", "\t", "x", "", "=", "b", "s", "e"}
 	for i := 0; i < cnt; i++ {
 		s := "bytes="
 		k := 1 + rng.Intn(5)
